@@ -1,8 +1,127 @@
 """C01 — exact arithmetic on rationals and complex rationals."""
-from vlib import core, nat_oracle, biguint_cases
+from fractions import Fraction as F
+from vlib import core, nat_oracle, biguint_cases, gens, exprgen
 
 MODULE = "FendModel.Props.C01"
 REL = "FendModel/Props/C01.lean"
+ALLOWED = {"division by zero": "divideByZero", "zero to the power of zero is undefined": "zeroPowZero",
+           "exponent too large": "exponentTooLarge"}
+
+# ------------------------------------------------------------------ BigRat op level
+def rat_val(q):
+    neg, n, d = q
+    dv = gens.val_of(d)
+    if dv == 0:
+        return None
+    v = F(gens.val_of(n), dv)
+    return -v if neg else v
+
+def parse_rat_result(line):
+    ws = line.split(" ")
+    if ws[0] == "err":
+        return ("err", ws[1] if len(ws) > 1 else "?")
+    if ws[0] != "ok":
+        return ("bad", line)
+    if len(ws) >= 2 and ws[1] and ws[1][0] in "+-" and "/" in ws[1]:
+        q = gens.parse_rat(ws[1])
+        return ("ok", rat_val(q), ws[2] if len(ws) > 2 else None)
+    return ("ok", int(ws[1]), None)
+
+def rat_expected(case):
+    ws = case.split(" ")
+    op = ws[0]
+    a = rat_val(gens.parse_rat(ws[1]))
+    b = rat_val(gens.parse_rat(ws[2])) if len(ws) > 2 else None
+    if a is None or (len(ws) > 2 and b is None):
+        return None
+    if op == "add": return ("ok", a + b)
+    if op == "sub": return ("ok", a - b)
+    if op == "mul": return ("ok", a * b)
+    if op == "div": return ("err", {"divideByZero"}) if b == 0 else ("ok", a / b)
+    if op == "neg": return ("ok", -a)
+    if op == "simplify": return ("ok", a)
+    if op == "cmp": return ("ok", (a > b) - (a < b))
+    if op == "pow":
+        if b.denominator != 1: return None
+        e = b.numerator
+        if a == 0 and e == 0: return ("err", {"zeroPowZero"})
+        if a == 0 and e < 0: return ("err", {"divideByZero"})
+        if abs(e) >= 2**64: return ("err", {"exponentTooLarge"})
+        return ("ok", a ** e, "exact")
+    return None
+
+def rat_oracle(case, impl, model):
+    exp = rat_expected(case)
+    if exp is None:
+        return None
+    got = parse_rat_result(impl)
+    if exp[0] == "ok":
+        if got[0] == "ok" and got[1] == exp[1] and (len(exp) < 3 or got[2] == exp[2]):
+            return None
+        return f"exact value {exp[1]} ({exp[2] if len(exp) > 2 else ''}) expected, implementation answered {impl!r}"
+    if got[0] == "err" and got[1] in exp[1]:
+        return None
+    return f"expected error {sorted(exp[1])}, implementation answered {impl!r}"
+
+def rat_canon(a, b, case):
+    return (parse_rat_result(a), parse_rat_result(b))
+
+def rat_cases(r, n, maxlimbs):
+    out = ["pow -S2/S1 +L3,0/S1", "pow -S2/S3 +L3,0,0/L1,0", "add +S1/S1 +L18446744073709551615,18446744073709551615/S1"]
+    ops = ["add", "sub", "mul", "div", "neg", "simplify", "cmp", "pow"]
+    while len(out) < n:
+        op = r.choice(ops)
+        a = gens.raw_rat(r, maxlimbs)
+        b = gens.raw_rat(r, maxlimbs)
+        if op in ("add", "sub", "cmp") and r.random() < 0.3:
+            b = (b[0], b[1], a[2])           # equal denominators: the other branch of add_internal
+        if op in ("add", "sub") and r.random() < 0.1:
+            b = (not a[0] if op == "add" else a[0], a[1], a[2])   # exact cancellation
+        if op == "div" and r.random() < 0.1:
+            b = (b[0], (False, [0, 0]) if r.random() < 0.5 else (True, [0]), b[2])
+        if op == "pow":
+            a = gens.raw_rat(r, 1)
+            e = r.choice([0, 1, 2, 3, 4, 5, 7, 16, r.randrange(0, 24)])
+            c = r.random()
+            if c < 0.5: num, den = (True, [e]), (True, [1])
+            elif c < 0.75: num, den = (False, [e] + [0] * r.randint(1, 2)), (True, [1])      # leading zero limbs
+            elif c < 0.9: num, den = (True, [e * 3]), (False, [3, 0])                        # unreduced exponent
+            else: num, den = (True, [e]), (False, [1, 0])
+            b = (r.random() < 0.35, num, den)
+            if r.random() < 0.08: a = (a[0], (True, [0]), a[2])
+        if op in ("neg", "simplify"):
+            out.append(f"{op} {gens.show_rat(a)}")
+        else:
+            out.append(f"{op} {gens.show_rat(a)} {gens.show_rat(b)}")
+    return out
+
+# ------------------------------------------------------------------ API level
+def api_cases(r, n, depth):
+    cases, meta = [], []
+    # regression corpus first (inputs that exposed defects D20, D1, D21)
+    for t, v in [("(1 + 0xffffffffffffffffffffffffffffffff)", F(2**128)), ("2^((2^64+5)-2^64)", F(32)), ("(-2)^(6/3)", F(4)),
+                 ("(-2/3)^((2^64+3)-2^64)", F(-8, 27)), ("(2^192 - (2^128 - 1))", F(2**192 - 2**128 + 1))]:
+        cases.append(f"{t} to base 10 to fraction"); meta.append(("val", v))
+    while len(cases) < n:
+        try:
+            if r.random() < 0.7:
+                t, v = exprgen.tree(r, r.randint(1, depth))
+                cases.append(f"{t} to base 10 to fraction"); meta.append(("val", v))
+            else:
+                t, (re, im) = exprgen.ctree(r, r.randint(1, depth - 1))
+                if r.random() < 0.5:
+                    cases.append(f"real({t}) to base 10 to fraction"); meta.append(("val", re))
+                else:
+                    cases.append(f"imag({t}) to base 10 to fraction"); meta.append(("val", im))
+        except exprgen.Undefined as u:
+            continue
+        except (OverflowError, ZeroDivisionError):
+            continue
+    # expressions whose only admissible outcome is one of the documented errors
+    for t, k in [("1/0", "divideByZero"), ("0^0", "zeroPowZero"), ("(1/3 - 2/6)^0", "zeroPowZero"), ("2^(2^64)", "exponentTooLarge"),
+                 ("(3/7)/((2^64+5)-2^64-5)", "divideByZero"), ("2^(-(2^70))", "exponentTooLarge")]:
+        cases.append(t); meta.append(("err", k))
+    return cases, meta
 
 def run(ctx):
     quick = ctx.tier == "quick"
@@ -15,22 +134,57 @@ def run(ctx):
         ctx.proof_failures.append({"file": "harness", "decl": "harness build (verif-hooks)", "line": 0,
                                    "msg": getattr(ctx, "harness_error", "")})
         return ctx.finish()
+    env = {"HARNESS_LINE_TIMEOUT_S": "2"}
     n = 4000 if quick else 200000
-    lines = biguint_cases.cases(ctx.rng, n, nat_oracle.C01_OPS, maxlimbs=6 if quick else 64)
+    lines = biguint_cases.cases(ctx.rng, n, nat_oracle.C01_OPS + ["is_even"], maxlimbs=6 if quick else 64)
     ctx.diff_stream("biguint-ops", lines, h, "biguint", canon=nat_oracle.canon, oracle=nat_oracle.oracle,
-                    nontrivial=lambda c, a: "L" in c,
-                    what="BigUint add/sub/mul/divmod/cmp/gcd/pow on raw limb vectors through the hooks; "
+                    nontrivial=lambda c, a: "L" in c, env=env,
+                    what="BigUint add/sub/mul/divmod/cmp/gcd/pow/is_even on raw limb vectors through the hooks; "
                          "implementation vs Lean model (value + error class) and vs Python int arithmetic (spec)")
+    rl = rat_cases(ctx.rng, 3000 if quick else 150000, 3 if quick else 24)
+    ctx.diff_stream("bigrat-ops", rl, h, "bigrat", canon=rat_canon, oracle=rat_oracle,
+                    nontrivial=lambda c, a: "L" in c, env=env,
+                    what="BigRat add/sub/mul/div/neg/simplify/cmp/pow(integer exponents, incl. negative, unreduced and non-canonical) on raw "
+                         "(sign, limbs, limbs) through the hooks; vs Lean model and vs Python Fraction arithmetic (spec)")
+    # API level: random Arith trees through fend_core::evaluate
+    cases, meta = api_cases(ctx.rng, 1500 if quick else 60000, 5 if quick else 6)
+    import time
+    t0 = time.time()
+    outs = ctx.run_lines_robust(h, ["eval"], cases, env={"HARNESS_LINE_TIMEOUT_S": "20"})
+    dist = {}
+    for c, m, o in zip(cases, meta, outs):
+        if m[0] == "val":
+            want = "ok " + exprgen.show_fraction(m[1])
+            key = "value"
+            if o != want:
+                key = "MISMATCH"
+                ctx.spec_failures.append({"stream": "api-trees", "input": c, "impl": o, "model": want,
+                                          "spec": f"exact value is {exprgen.show_fraction(m[1])} (Python Fraction); an 'approx.' marker or another value is a violation"})
+        else:
+            key = "error:" + m[1]
+            if not (o.startswith("err ") and ALLOWED.get(o[4:]) == m[1]):
+                key = "MISMATCH"
+                ctx.spec_failures.append({"stream": "api-trees", "input": c, "impl": o, "model": "err " + m[1],
+                                          "spec": "only the documented error is admissible here"})
+        dist[key] = dist.get(key, 0) + 1
+    ctx.record_stream("api-trees", "random expression trees over integer/decimal/recurring/fraction/based literals, + - * / unary minus, integer powers "
+                      "(incl. exponents produced by cancelling histories) and complex field operations with real/imag/conjugate, evaluated as "
+                      "`E to fraction` through fend_core::evaluate and compared with exact Fraction arithmetic",
+                      len(cases), len(set(cases)), dist, cases[:3], time.time() - t0)
     return ctx.finish(rule="operand generator of DESIGN.md section 7 (limbs from {0,1,2^63,2^64-1,random}, leading zero limbs, "
-                           "Small/Large forms, 2^(64k)+-1, cancelling histories); a case is non-trivial when an operand is a "
-                           "multi-limb (Large) vector; distinct = distinct case lines")
+                           "Small/Large forms, 2^(64k)+-1, cancelling histories); op cases are non-trivial when an operand is a "
+                           "multi-limb (Large) vector; tree cases: all distinct texts; distinct = distinct case lines")
 
 def replay(ctx, rep):
     h = ctx.harness()
     f = rep["first"]
     case = f["input"]
-    impl = ctx.run_lines(h, ["biguint"], [case])[1]
-    model = ctx.run_lines(core.DRIVER, ["biguint"], [case])[1]
-    print("case :", case); print("impl :", impl); print("model:", model)
-    print("spec :", nat_oracle.expected(case))
+    st = {"biguint-ops": "biguint", "bigrat-ops": "bigrat", "api-trees": "eval"}[f.get("stream", "biguint-ops")]
+    print("case :", case)
+    print("impl :", ctx.run_lines(h, [st], [case])[1])
+    if st != "eval":
+        print("model:", ctx.run_lines(core.DRIVER, [st], [case])[1])
+        print("spec :", nat_oracle.expected(case) if st == "biguint" else rat_expected(case))
+    else:
+        print("spec :", f.get("model"))
     return 0
